@@ -178,4 +178,8 @@ TEMPLATES = {
     'se2fix': lambda s: make('SE2', s, fixed=(2, 5)),
     'se3fix': lambda s: make('SE3', s, fixed=(1, 6), isolated_fixed=True),
     'se2far': lambda s: make('SE2', s, dt=2.5, dr=1.5),            # far from the optimum: chi^2 may increase
+    'r3fixlm': lambda s: make('R3', s, n_landmarks=2, fixed=(0, 5, 6)),                 # fixed landmarks
+    'se2allfix': lambda s: make('SE2', s, n_poses=3, n_landmarks=1, closures=0, fixed=(0, 1, 2, 3)),
+    'r2iso': lambda s: make('R2', s, n_landmarks=1, fixed=(1,), isolated_fixed=True),    # a fixed vertex without incident edge
+    'se3far': lambda s: make('SE3', s, dt=3.0, dr=2.0, fixed=(2,)),                       # diverging runs with a fixed vertex
 }
